@@ -19,6 +19,9 @@ Three kinds of comparison are made on every case:
        EQUALS each constant the source compares it with, judged like every other pair;
      * environment: dec2dms/dec2hms print the same strings under TZ=AWST-8, IST-5:30, EST5, NST3:30 (time.tzset,
        restored afterwards) as in the default environment;
+     * vector slices: arrays in which valid pairs (always including a near-antipodal and a sub-arcsecond one) share the
+       call with rows holding NaN/inf coordinates: every valid row gets the scalar answer (gcd: the vector formula to
+       1e-9 deg); zero-length arrays give zero-length results;
      * call HISTORIES: the same ndarray objects re-used across calls with their contents changed in place (each
        argument in turn) give, at every call, the answer fresh arrays with the same values give;
      * dec2dms / dec2hms: output matches the format, minutes < 60, seconds < 60, hours < 24,
@@ -1070,6 +1073,102 @@ def judge_types(ctx, n):
                 ctx.case(case, nontrivial_key=('fmt-type', name, float(xv), kind))
 
 # ---------------------------------------------------------------------------------------------
+# vector slices: arrays in which valid pairs share a call with non-finite rows; empty arrays
+#
+# A catalogue column routinely carries a NaN position next to good ones.  Whatever the function returns for the
+# bad row, every VALID row of an array call must get the answer the scalar call gives for that row (and, for gcd,
+# the answer of the vector formula to 1e-9 deg) -- a reduction over the whole array (np.max, np.any, …) deciding
+# which formula is used must not let one NaN row change the others.  Zero-length arrays must give zero-length
+# results, not an exception.
+# ---------------------------------------------------------------------------------------------
+def _bad_rows(rng, width):
+    out = []
+    for _ in range(rng.choice([1, 1, 2, 3])):
+        row = [rng.uniform(0, 360), rng.uniform(-80, 80), rng.uniform(0, 360), rng.uniform(-80, 80)][:width]
+        for j in rng.sample(range(width), rng.choice([1, 1, 2, width])):
+            row[j] = rng.choice([float('nan'), float('nan'), float('inf'), float('-inf')])
+        out.append(row)
+    return out
+
+
+def judge_array_call(ctx, func, rows):
+    """rows: list of 4-lists, some with non-finite entries.  func in gcd / bear / translate."""
+    at = _at()
+    f = getattr(at, func)
+    A = np.array(rows, dtype=float).reshape(-1, 4)
+    case = dict(kind='array', func=func, rows=[[float(v) for v in r] for r in rows])
+    valid = [i for i, r in enumerate(rows) if all(math.isfinite(v) for v in r)]
+    try:
+        with np.errstate(all='ignore'):
+            res = _as_tuple(f(A[:, 0].copy(), A[:, 1].copy(), A[:, 2].copy(), A[:, 3].copy()))
+    except Exception as e:
+        ctx.fail('spec', case, f"{func} raised {type(e).__name__}: {e} on arrays of {len(rows)} rows "
+                               f"({len(rows) - len(valid)} with a non-finite coordinate)",
+                 dict(site=func, what='array-raises', empty=(len(rows) == 0)))
+        ctx.case(dict(kind='array', func=func, n=len(rows)))
+        return
+    if any(x.shape != (len(rows),) for x in res):
+        ctx.fail('spec', case, f"{func} on arrays of {len(rows)} rows returned shapes {[x.shape for x in res]}",
+                 dict(site=func, what='array-shape', empty=(len(rows) == 0)))
+        ctx.case(dict(kind='array', func=func, n=len(rows)))
+        return
+    for i in valid:
+        r = rows[i]
+        sc = _as_tuple(f(*r))
+        rowcase = dict(case, row=i, scalar=[float(x) for x in sc], in_array=[float(x[i]) for x in res])
+        if func == 'gcd':
+            rd, _, _ = ref_gcd_pa(*r)
+            if abs(Decimal(float(res[0][i])) - rd) > Decimal(TOL_VEC):
+                ctx.fail('spec', rowcase, f"gcd of row {i} {tuple(r)!r} inside an array call that also holds a non-finite row is "
+                                          f"{float(res[0][i])!r}; the vector formula gives {float(rd)!r} and the scalar call {float(sc[0])!r}",
+                         dict(site='gcd', what='array-with-nonfinite-rows', regime=regime_of_sep(float(rd))))
+            elif not common.close(float(sc[0]), float(res[0][i]), rel=0, abs_=1e-10):
+                ctx.fail('spec', rowcase, f"gcd row {i}: scalar {float(sc[0])!r} vs array {float(res[0][i])!r}",
+                         dict(site='gcd', what='array-with-nonfinite-rows'))
+        elif func == 'bear':
+            _, _, rsin = ref_gcd_pa(*r)
+            if float(rsin) > 1e-9 and angdiff(float(sc[0]), float(res[0][i])) > 1e-9 + 2e-13 / float(rsin):
+                ctx.fail('spec', rowcase, f"bear row {i}: scalar {float(sc[0])!r} vs array {float(res[0][i])!r}",
+                         dict(site='bear', what='array-with-nonfinite-rows'))
+        else:
+            cd1 = abs(math.cos(math.radians(r[1])))
+            cd2 = abs(math.cos(math.radians(float(sc[1]))))
+            told = 1e-9 + 3e-14 / max(cd2, 1e-9)
+            if abs(float(sc[1]) - float(res[1][i])) > told or \
+                    (cd1 * cd2 > 1e-9 and angdiff(float(sc[0]), float(res[0][i])) > 1e-10 + 1e-12 / (cd1 * cd2)):
+                ctx.fail('spec', rowcase, f"translate row {i}: scalar {[float(x) for x in sc]!r} vs array {[float(x[i]) for x in res]!r}",
+                         dict(site='translate', what='array-with-nonfinite-rows'))
+    ctx.count(f'array:{func}:' + ('empty' if not rows else 'with-nonfinite-rows' if len(valid) < len(rows) else 'all-valid'))
+    ctx.case(dict(kind='array', func=func, n=len(rows), nonfinite=len(rows) - len(valid)),
+             nontrivial_key=('array', func, json_key(case['rows'])), sample_every=97)
+
+
+def judge_arrays(ctx, n):
+    rng = ctx.rng
+    for func in ('gcd', 'bear', 'translate'):
+        judge_array_call(ctx, func, [])
+    pool = [list(p[1:]) for p in gen_pairs(rng, 6 * n)]
+    # every batch holds at least one near-antipodal and one sub-arcsecond pair next to the bad rows
+    for k in range(n):
+        rows = pool[6 * k:6 * k + 4]
+        ra, dec = rand_point(rng)
+        dec = max(-89.0, min(89.0, dec))
+        rows.append([ra, dec, *_move(ra, dec, 180.0 - 10 ** rng.uniform(-9, -3), rng.uniform(0, 360))])
+        rows.append([ra, dec, *_move(ra, dec, 10 ** rng.uniform(-9, -4), rng.uniform(0, 360))])
+        if k % 5:
+            for b in _bad_rows(rng, 4):
+                rows.insert(rng.randrange(len(rows) + 1), b)
+        for func in ('gcd', 'bear'):
+            judge_array_call(ctx, func, rows)
+    for k in range(n):
+        rows = [list(t) for t in gen_translate(rng, 5)]
+        if k % 5:
+            for b in _bad_rows(rng, 4):
+                rows.insert(rng.randrange(len(rows) + 1), b)
+        judge_array_call(ctx, 'translate', rows)
+
+
+# ---------------------------------------------------------------------------------------------
 # exact coincidences: inputs on which gcd's haversine intermediate `a` EQUALS a threshold of the selection
 #
 # Random input meets `a == t` with probability ~1e-16, so the boundary is solved for: the constants that the
@@ -1239,6 +1338,7 @@ def run_corpus(ctx):
     judge_sexa(ctx, 'dms', CORPUS_DMS)
     judge_sexa(ctx, 'hms', CORPUS_HMS)
     judge_parse_strings(ctx, CORPUS_STRINGS)
+    judge_array_call(ctx, 'gcd', [[10.0, 30.0, 190.0 + 1e-6, -30.0], [float('nan'), 0.0, 1.0, 1.0], [0.0, 0.0, 0.0, 1.0]])
     for func, states, dtype in CORPUS_HISTORIES:
         judge_history(ctx, func, states, dtype, regime='corpus')
     for fn in sorted(glob.glob(os.path.join(common.VERIF, 'corpus', 'C17', '*.json'))):
@@ -1251,8 +1351,8 @@ def run_corpus(ctx):
 # ---------------------------------------------------------------------------------------------
 def sizes(ctx, wide=False):
     if ctx.quick and not wide:
-        return dict(pairs=1500, triples=400, translate=1200, sexa=4000, strings=2500, histories=60, types=60)
-    return dict(pairs=40000, triples=12000, translate=40000, sexa=200000, strings=60000, histories=1500, types=1500)
+        return dict(pairs=1500, triples=400, translate=1200, sexa=4000, strings=2500, histories=60, types=60, arrays=120)
+    return dict(pairs=40000, triples=12000, translate=40000, sexa=200000, strings=60000, histories=1500, types=1500, arrays=3000)
 
 
 def run(ctx):
@@ -1272,6 +1372,7 @@ def run(ctx):
     judge_types(ctx, sz['types'])
     judge_boundaries(ctx, 4 if ctx.quick else 12)
     judge_env(ctx)
+    judge_arrays(ctx, sz['arrays'])
     judge_pinned_model(ctx, xs_d[: sz['sexa'] // 2], xs_h[: sz['sexa'] // 2])
 
 
@@ -1285,7 +1386,8 @@ def search(ctx):
     ctx.driver_ok = False
     try:
         sz = sizes(ctx, wide=True)
-        for step in (lambda: judge_boundaries(ctx, 12),
+        for step in (lambda: judge_arrays(ctx, sz['arrays']),
+                     lambda: judge_boundaries(ctx, 12),
                      lambda: judge_env(ctx),
                      lambda: judge_histories(ctx, sz['histories']),
                      lambda: judge_types(ctx, sz['types']),
@@ -1314,6 +1416,8 @@ def replay(ctx, rec):
         judge_translate(ctx, [(c['ra'], c['dec'], c['r'], c['theta'])])
     elif k in ('dms', 'hms'):
         judge_sexa(ctx, k, [float(c['x'])])
+    elif k == 'array':
+        judge_array_call(ctx, c['func'], c['rows'])
     elif k == 'env':
         judge_env(ctx, tzs=(c['TZ'],))
     elif k == 'history':
